@@ -74,7 +74,7 @@ func init() {
 // event runs (selectors are reduced modulo the number of candidates).
 type BuildReq struct {
 	// Kind: transferLeader movePeer addPeer removePeer moveLeader promoteLearner
-	// leaveJoint builder split merge handmade
+	// leaveJoint builder split merge handmade demoteLeader (CreateMoveRegionOperator with roles)
 	Kind string `json:"kind"`
 	// Prio: "" normal, "admin" (kind OpAdmin => high), "high", "low" (SetPriorityLevel)
 	Prio  string `json:"prio,omitempty"`
@@ -128,7 +128,7 @@ type Case struct {
 var buildKinds = []string{
 	"movePeer", "movePeer", "movePeer", "builder", "builder", "builder", "builder", "handmade", "handmade", "handmade", "handmade",
 	"transferLeader", "transferLeader", "addPeer", "removePeer", "removePeer", "moveLeader", "moveLeader", "promoteLearner",
-	"leaveJoint", "split", "merge", "merge",
+	"leaveJoint", "split", "merge", "merge", "demoteLeader", "demoteLeader", "demoteLeader",
 }
 
 var foreignKinds = []string{
